@@ -80,6 +80,7 @@ def execute(plan):
         "vtime": sum(e["vtime"] for e in history["endings"]),
         "steps": sum(e["steps"] for e in history["endings"]),
         "endings": [e["how"] for e in history["endings"]],
+        "errors": [(e["how"], (e.get("error") or "")[:300]) for e in history["endings"] if e["how"] not in ("completed", "crashed")],
         "trigger": trigger,
         "wall": time.monotonic() - t0,
         "consulted": history["consulted"] if plan.get("_want_consulted") else None,
@@ -326,7 +327,7 @@ STUB_COMPONENTS = ["asyncio event loop (virtual time)", "TestRunner.run_test_tas
 def aggregate(prop, plans, results, report, known):
     agg = {"ok_runs": 0, "execs": 0, "vtime": 0.0, "steps": 0, "ilv": set(), "ilv_trigger": set(),
            "pairs": set(), "faults": {}, "probes": {}, "endings": {}, "samples": [], "violating": [],
-           "known_hits": {}, "wall_child": 0.0, "kinds": {}}
+           "known_hits": {}, "wall_child": 0.0, "kinds": {}, "errors": []}
     fresh = {}
     for index, status, result, wall in results:
         if status != "ok":
@@ -349,6 +350,9 @@ def aggregate(prop, plans, results, report, known):
             agg["probes"][k] = agg["probes"].get(k, 0) + v
         for how in result["endings"]:
             agg["endings"][how] = agg["endings"].get(how, 0) + 1
+        for how, err in result.get("errors", []):
+            if len(agg["errors"]) < 10:
+                agg["errors"].append({"seed": plans[index]["seed"], "how": how, "error": err})
         if "sample" in result and len(agg["samples"]) < 2:
             scen = plans[index]["scenario"]
             agg["samples"].append({"seed": plans[index]["seed"],
@@ -406,6 +410,7 @@ def coverage_of(prop, tier, plans, results, skipped, agg, wall_s, ndet, mism):
         "faults_fired": agg["faults"],
         "probes": agg["probes"],
         "epoch_endings": agg["endings"],
+        "abnormal_endings": agg["errors"],
         "determinism_selfcheck": {"plans_rerun": ndet, "digest_mismatches": mism},
         "real_components": REAL_COMPONENTS,
         "stub_components": STUB_COMPONENTS,
